@@ -1,0 +1,29 @@
+//go:build verif
+
+// Contracts for the verification machinery in /verif (comment-only; never compiled into a binary).
+// Property C04 (plugin glue): the permit decision of the PodGroupManager is passed to the framework unchanged.
+
+package coscheduling
+
+//@ uses pkg/scheduler/plugins/coscheduling/util
+
+// Permit: the manager is asked once about this pod. The gang group is released (AllowGangGroup for this pod, with the
+// plugin's framework handle and name) if and only if the manager answered Success; the framework is told to wait,
+// for exactly the manager's wait time, if and only if the manager answered Wait; a non-gang pod passes, a pod whose
+// gang is unknown is unschedulable.
+//@ func (*Coscheduling).Permit [C04]
+//@   requires cs != nil
+//@   assert before call Permit: #thispod: $arg1 == pod
+//@   assert before call AllowGangGroup: #release: lastresult("Permit", 1) == core.Success && $arg0 == pod && $arg1 == cs.frameworkHandler && $arg2 == Name
+//@   ensures #once: calls("Permit") == 1
+//@   ensures #allowiff: calls("AllowGangGroup") == (lastresult("Permit", 1) == core.Success ? 1 : 0)
+//@   ensures #wait: lastresult("Permit", 1) == core.Wait ==> result0 != nil && result0.code == fwktype.Wait && result1 == lastresult("Permit", 0)
+//@   ensures #success: lastresult("Permit", 1) == core.Success ==> result0 != nil && result0.code == fwktype.Success && result1 == 0
+//@   ensures #notgang: lastresult("Permit", 1) == core.PodGroupNotSpecified ==> result0 != nil && result0.code == fwktype.Success && result1 == 0
+//@   ensures #notfound: lastresult("Permit", 1) == core.PodGroupNotFound ==> result0 != nil && result0.code == fwktype.Unschedulable && result1 == 0
+
+// Unreserve: delegated to the manager for the same pod with the plugin's framework handle and name.
+//@ func (*Coscheduling).Unreserve [C04]
+//@   requires cs != nil
+//@   assert before call Unreserve: #delegate: $arg2 == pod && $arg3 == nodeName && $arg4 == cs.frameworkHandler && $arg5 == Name
+//@   ensures #once: calls("Unreserve") == 1
